@@ -13,10 +13,10 @@
 EXTENDS Integers, Sequences, TLC, Json
 
 Sels     == {"cols", "aliases", "aggs", "aggs2", "index"}      \* index: chained subscripts / map keys / nested paths as select items
-Wheres   == {"none", "cmp", "kwlit", "andor"}
+Wheres   == {"none", "cmp", "kwlit", "andor", "long"}      \* long: a conjunction of 45 comparisons (far more than 100 tokens)
 Windows  == {"none", "tumbling", "sliding", "counting", "session", "global"}
 Havings  == {"none", "alias", "agg"}
-Withs    == {"none", "ts", "tsmoo"}
+Withs    == {"none", "ts", "tsmoo", "uss", "us_s", "uus", "umi", "uhh"}      \* u*: the other TIMEUNIT names (ss, s, us, mi, hh)
 Orders   == {"none", "one", "two", "descbare", "barefirst"}    \* descbare: a key without direction after a DESC key (defaults to ASC)
 GbLayouts == {"kw", "wk"}                                         \* GROUP BY key, Window(...)  |  GROUP BY Window(...), key
 Limits   == {0, 3}
